@@ -64,6 +64,7 @@ def bad_value(s, rng):
 
 
 BAD_SHARE = [0.5]
+BESIDE_REF = [True]
 
 
 def value_for(s, rng, defs):
@@ -79,8 +80,8 @@ def schema_places(s, defs, out, depth=0):
     """all sub-schemas of s that are not bare references (a value beside $ref is ignored)"""
     if not isinstance(s, dict) or depth > 12:
         return
-    if "$ref" not in s:
-        out.append(s)
+    if "$ref" not in s or (BESIDE_REF[0] and id(s) % 4 == 0):
+        out.append(s)            # now and then a value next to a $ref as well (the loader keeps it)
     it = s.get("items")
     if isinstance(it, dict):
         schema_places(it, defs, out, depth + 1)
